@@ -549,6 +549,69 @@ def rule_r9(F, rep):
     rep.floor(R, n, 3, "object constructions with scheduled fields")
 
 
+def _root_local(body, op, depth=0):
+    """the local a function-value operand comes from, through copies, references, derefs and GcView/Gc conversions"""
+    if op["k"] not in ("copy", "move") or depth > 8:
+        return None
+    l = op["l"]
+    ds = []
+    for bb, si, st in body.assigns():
+        if st["p"]["l"] == l and not st["p"]["p"]:
+            ds.append(("a", st["rv"]))
+    for bb, t in body.calls():
+        if t["dst"]["l"] == l and not t["dst"]["p"]:
+            ds.append(("c", t))
+    if len(ds) != 1:
+        return l
+    kind, d = ds[0]
+    if kind == "a":
+        if d["k"] in ("use", "cast") and d["x"]["k"] in ("copy", "move"):
+            return _root_local(body, d["x"], depth + 1)
+        if d["k"] in ("ref", "rawptr"):
+            return _root_local(body, {"k": "copy", "l": d["p"]["l"], "p": []}, depth + 1)
+        return l
+    nm = callee_name(d) or ""
+    if d["xs"] and (nm.endswith("Deref>::deref") or nm.endswith("core::convert::From>::from") or nm.endswith("Clone>::clone")
+                    or nm.endswith("::view") or nm.endswith("AsRef>::as_ref") or nm.endswith("Borrow>::borrow")):
+        return _root_local(body, d["xs"][0], depth + 1)
+    return l
+
+
+def rule_r10(F, rep):
+    R = rep.rule("C04.R10", "builtins whose results are specified as delayed calls (std.map, mapWithIndex, mapWithKey, makeArray, the "
+                 "map function of filterMap) only ever wrap the function into pending-call thunks: a handler that builds "
+                 "`ThunkData::new_pending_call(f, ..)` never also calls that same function value directly "
+                 "(execute_call / check_thunk_args_and_execute_call) — a direct call makes the element's evaluation happen whether "
+                 "or not anybody reads it, so an unused element that fails or traces changes the outcome")
+    n = 0
+    for fn in F.fn_list:
+        if fn.crate.name != "rsjsonnet_lang":
+            continue
+        body = fn.body
+        pend = [(bb, t) for bb, t in body.calls() if (callee_name(t) or "").endswith("::new_pending_call")]
+        if not pend:
+            continue
+        fns = [fn] + [g for g in F.fn_list if g.crate.name == "rsjsonnet_lang" and F.is_new_fn(g.q) and
+                      any((t["f"].get("r") or "") == g.q for _, t in body.calls())]
+        rep.fn(fn)
+        wrapped = {_root_local(body, t["xs"][0]) for bb, t in pend if t["xs"]}
+        direct = []
+        for bb, t in body.calls():
+            nm = callee_name(t) or ""
+            if nm.endswith("::check_thunk_args_and_execute_call") or nm.endswith("::execute_call"):
+                if len(t["xs"]) > 1:
+                    direct.append((_root_local(body, t["xs"][1]), body.span(t["sp"])))
+        n += 1
+        bad = [(l, site) for l, site in direct if l in wrapped]
+        ok = not bad
+        rep.ob(R, "%s|delayed-only" % fn.q.rsplit("::", 1)[-1], ok, {"handler": fn.q, "pending-call sites": len(pend), "direct calls": len(direct)})
+        if not ok:
+            rep.violation(R, "%s|calls-delayed-function" % fn.q, "%s wraps a function into pending-call thunks and also calls the same "
+                          "function value directly: the call runs even if the resulting element is never read" % fn.q.rsplit("::", 1)[-1],
+                          bad[0][1])
+    rep.floor(R, n, 4, "handlers that build pending-call thunks")
+
+
 def run(F, rep, tier):
     rep.attempt(rule_r1, F, rep)
     rep.attempt(rule_r2, F, rep)
@@ -557,6 +620,7 @@ def run(F, rep, tier):
     rep.attempt(rule_r5, F, rep)
     rep.attempt(rule_r6, F, rep)
     rep.attempt(rule_r9, F, rep)
+    rep.attempt(rule_r10, F, rep)
     from . import c04_lit
     rep.attempt(c04_lit.rule, F, rep)
     rep.attempt(c04_lit.rule_strict_flag, F, rep)
